@@ -1,14 +1,14 @@
 SPECIFICATION Spec
 CONSTANTS
-  Ids = {"r1", "r2"}
+  Ids = {"r1", "r2", "r3"}
   Lens = {100}
-  MaxSizes = {20971519, 20971520}
+  MaxSizes = {20971520, 25165824}
   SegMax = 10485760
-  MaxBatches = 2
-  MaxOps = 3
+  MaxBatches = 8
+  MaxOps = 20
   Menu = {"init", "delete", "update", "enq", "deliver", "track", "untrack", "storeset", "closeall", "crash", "start"}
   Prefix <- NoPrefix
-  Refusals = {"exists", "notfound", "toosmall", "full", "startup"}
+  Refusals = {}
   KickOnOpen = TRUE
   InitLeavesDir = TRUE
   Record = TRUE
